@@ -7,6 +7,9 @@ CONSTANTS
   DTypes <- DT2
   DataSets <- DS3
   TempPairs <- TP7
+  TmPairs <- TM5
+  OneOpFactors <- F5
+  BareKinds <- BK2
   Fixes <- NoFixes
 INIT Init
 NEXT Next
